@@ -20,11 +20,12 @@ pub fn def() -> CheckDef {
         runs_quick: 800_000,
         runs_thorough: 25_000_000,
         rule: "seeded apply/seek histories on BeltCtr and ks/set_block_pos histories on BeltCtrCore over the 16-byte harness cipher (width per call from {1,2,3,5,8}, so the parallel keystream path runs) or BelT itself; IVs incl. D(LE(2^128-k)) so that s wraps; start positions small, near 2^32, near 2^64 and far; seam trace: first block E(IV), keystream block i has cipher input LE(s0+i+1); output = input XOR that. distinct = distinct (front end, cipher, policy, op/form/offset-class sequence); non-trivial = >= 1 keystream byte",
-        required_probes: &["s_wraps_2_128", "par_keystream_block", "seek_inside_block", "real_belt", "block_index_ge_2_32"],
+        required_probes: &["s_wraps_2_128", "par_keystream_block", "seek_inside_block", "real_belt", "block_index_ge_2_32", "restart_from_exported_state"],
         r#gen,
         exec,
         components: "real code: belt-ctr crate and cipher's StreamCipherCoreWrapper; stub: block cipher (SimCipher<16>/SimCipherEnc<16>) in most runs, real BeltBlock in the rest; oracle: belt_s0/belt_input in sim/src/model.rs applied to the recorded seam trace",
         assumptions: &["model and toy permutation are correct (self-tested)", "sampling, not proof"],
+        nondet_is_violation: false,
     }
 }
 
@@ -42,13 +43,14 @@ fn r#gen(rng: &mut Rng, thorough: bool) -> Scn {
     }
     let core = rng.chance(2, 5);
     s.set_num("front", core as u128);
-    s.set_num("ctor", rng.below(2) as u128);
+    s.set_num("ctor", rng.below(4) as u128);
     let w = s.pol[0].max_width() as u64;
     let nops = 1 + rng.usize(if thorough { 10 } else { 7 });
     for _ in 0..nops {
         if core {
             match rng.below(10) {
                 0 | 1 => s.ops.push(Op::new("setpos").p(far_block(rng))),
+                3 => s.ops.push(Op::new("restart")),
                 2 => {
                     s.ops.push(Op::new("wrap"));
                     s.ops.push(Op::new("apply").n(rng.nbytes(80, 16)).via(rng.below(N_APPLY_FORMS as u64) as u8));
@@ -58,6 +60,7 @@ fn r#gen(rng: &mut Rng, thorough: bool) -> Scn {
             }
         } else {
             match rng.below(10) {
+                3 => s.ops.push(Op::new("restart")),
                 0 | 1 | 2 => s.ops.push(Op::new("seek").p(far_block(rng).min(u128::MAX / 32) * 16 + rng.below(16) as u128).ty(rng.below(2) as u8)),
                 _ => s.ops.push(Op::new("apply").n(rng.nbytes(96, 16)).via(rng.below(N_APPLY_FORMS as u64) as u8)),
             }
